@@ -15,8 +15,19 @@ def pstr(p):
     return "/" + "/".join(p)
 
 
+SPLIT = {"on": False}          # per case: the two files live in different directories
+
+
+def fpath(d, f):
+    """f1 sits in the scratch directory of the case, f2 - when the case says so - in a sub-directory of it."""
+    if SPLIT["on"] and f == "f2":
+        os.makedirs(os.path.join(d, "elsewhere", "deeper"), exist_ok=True)
+        return os.path.join(d, "elsewhere", "deeper", f + ".cool")
+    return os.path.join(d, f + ".cool")
+
+
 def uri(d, f, p, noslash=False):
-    fp = os.path.join(d, f + ".cool")
+    fp = fpath(d, f)
     if not p:
         return fp + "::/"
     return fp + "::" + ("/".join(p) if noslash else pstr(p))
@@ -104,6 +115,7 @@ def st_history(case, ctx):
     paths = case["paths"]
     steps = []
     leaked = 0
+    SPLIT["on"] = bool(case.get("split_dirs"))
     for op in case["ops"]:
         ok, err, msg = True, "", ""
         # Objects reached through an external link belong to the OTHER file and stay open, after the file they were reached
@@ -115,7 +127,7 @@ def st_history(case, ctx):
         try:
             if op["op"] == "create":
                 cooler.create_cooler(uri(d, op["f"], op["p"], op.get("noslash", False)) if op["p"] or op.get("explicit_root")
-                                     else os.path.join(d, op["f"] + ".cool"),
+                                     else fpath(d, op["f"]),
                                      gen.bins_frame(TABLE), gen.pixels_frame([[0, 1, op["c"]]]), ordered=True, mode=op["mode"],
                                      **({"assembly": f"asm{op['c']}", "metadata": {"content": op["c"]}} if op["c"] % 2 else {}))
             else:
@@ -145,6 +157,6 @@ def st_history(case, ctx):
         gc.collect()
         leaked += _close_leaked_ids()          # ... and the files are read back from a clean library state, too
         steps.append({"ok": ok, "err": err, "msg": msg,
-                      "f1": observe_file(os.path.join(d, "f1.cool"), paths, case.get("via") == "cli"),
-                      "f2": observe_file(os.path.join(d, "f2.cool"), paths, case.get("via") == "cli")})
+                      "f1": observe_file(fpath(d, "f1"), paths, case.get("via") == "cli"),
+                      "f2": observe_file(fpath(d, "f2"), paths, case.get("via") == "cli")})
     return {"steps": steps, "leaked_ids_closed": leaked}
